@@ -346,14 +346,14 @@ Proof.
       rewrite P'. unfold l1. rewrite !blen_app2, !blen_cons, blen_app2, blen_cons. unfold blen; cbn [length]. lia.
     + unfold plain in Hmid. cbn [forallb] in Hmid. apply andb_true_iff in Hmid. destruct Hmid as [Hy _].
       destruct (plain_facts _ Hy) as (Hy1 & _).
+      set (lx := pre ++ 38 :: m ++ [59]).
+      assert (Hzx : skipn (N.to_nat (s_pos s0)) text = lx ++ y :: mid' ++ tail ++ z).
+      { rewrite Hz. unfold l1, lx. repeat (rewrite <- app_assoc; cbn [app]). reflexivity. }
       eapply boundary_at; [|exact Hy1].
-      replace (N.to_nat (s_pos s0 + blen pre + blen m + 2))
-        with (N.to_nat (s_pos s0) + length (pre ++ 38 :: m ++ [59]))%nat.
-      * rewrite <- skipn_skipn2, Hz. unfold l1.
-        replace (pre ++ 38 :: m ++ 59 :: y :: mid') with ((pre ++ 38 :: m ++ [59]) ++ y :: mid')
-          by (rewrite <- !app_assoc; cbn [app]; rewrite <- app_assoc; reflexivity).
-        rewrite <- app_assoc, skipn_app, skipn_all, Nat.sub_diag. cbn [app skipn]. reflexivity.
-      * unfold blen. rewrite !app_length. cbn [length]. rewrite app_length. cbn [length]. lia.
+      replace (N.to_nat (s_pos s0 + blen pre + blen m + 2)) with (N.to_nat (s_pos s0) + length lx)%nat.
+      * rewrite <- skipn_skipn2, Hzx, skipn_app, skipn_all.
+        replace (length lx - length lx)%nat with 0%nat by lia. cbn [app skipn]. reflexivity.
+      * unfold lx, blen. rewrite !app_length. cbn [length]. rewrite app_length. cbn [length]. lia.
   - unfold depth in *. lia.
   - rewrite Hpt. cbn [bind]. eauto.
 Qed.
